@@ -126,7 +126,7 @@ func c15genClientOp(r *Rec, kind string) string {
 	case "upgrade":
 		return strings.Join([]string{"upgrade", abs, c15chain(r), cs, cons, sig, "0", "0", "0"}, " ")
 	}
-	return strings.Join([]string{"toggle", abs, c15chain(r), cs, cons, "f", "0"}, " ")
+	return strings.Join([]string{"toggle", abs, c15chain(r), cs, cons, sig, "0"}, " ")
 }
 
 func c15genXgen(r *Rec) string {
